@@ -453,6 +453,11 @@ func evGenProto(t *rapid.T, version string) evProto {
 			p.Auth = append(p.Auth, evFakeID(t, version, "auth"))
 		}
 	}
+	if tr.Creators && !p.isV12Create() && p.RoomID != "" && rapid.IntRange(0, 5).Draw(t, "nameCreate") == 0 {
+		// the sender lists the create event itself, at a random position
+		pos := rapid.IntRange(0, len(p.Auth)).Draw(t, "createPos")
+		p.Auth = append(p.Auth[:pos:pos], append([]string{"$" + p.RoomID[1:]}, p.Auth[pos:]...)...)
+	}
 	p.Depth = int64(rapid.IntRange(0, 1000).Draw(t, "depth"))
 	p.TS = rapid.Int64Range(0, 1900000000000).Draw(t, "ts")
 	if rapid.IntRange(0, 2).Draw(t, "hasUnsigned") == 0 {
